@@ -10,6 +10,7 @@ import Driver.ContainersDrv
 import Driver.TokensDrv
 import Driver.MarkupDrv
 import Driver.WaitDrv
+import Driver.NextTokenDrv
 /-! `ysgo-model`: reads case lines on stdin, prints the model's observation lines (id, index, observation) -/
 open Ysgo Ysgo.Drv
 
@@ -27,6 +28,7 @@ def dispatch (stream : String) (c : S) : List String :=
   | "tokens" => tokensCase c
   | "markup" => markupCase c
   | "wait" => waitCase c
+  | "nexttoken" => nexttokenCase c
   | _ => ["UNKNOWN-STREAM"]
 
 partial def loop (h : IO.FS.Stream) (out : IO.FS.Stream) : IO Unit := do
